@@ -246,7 +246,10 @@ func runCheck(w *World, prop string, timeoutS int, confirm bool, known *KnownFil
 		for _, e := range rep.Errors {
 			// errors that are not tied to one path: an anchor no path reaches, an
 			// internal error of the generator
-			if strings.Contains(e, "never reached") || strings.Contains(e, "internal") || strings.Contains(e, "inline depth") || strings.Contains(e, "recursive inlining") {
+			// (an anchor that is never reached does not excuse a failure: a call
+			// that disappeared is the typical defect; helpers extracted by a
+			// refactoring keep their anchors through inheritance)
+			if strings.Contains(e, "internal") || strings.Contains(e, "inline depth") || strings.Contains(e, "recursive inlining") {
 				misfit[rep.Func] = e
 			}
 		}
@@ -646,11 +649,11 @@ var globalAssumptions = []string{
 
 var propAssumptions = map[string][]string{
 	"C19": {
-		"scope (partial): Agent.activate/handleActivationRequest/handleActivation/handleDeactivation/handleActorTopology/addActivated/removeActivated/hasKindLocal/handleGetActive (by id)/memberJoin (topology)/memberLeave (purge)/Receive (dispatch), MemberSet.FilterByKind, Member.HasKind; cluster-wide convergence is the composition of these clauses with delivery and is not machine-checked",
+		"scope (partial): Agent.bcast (body, as bcast!impl), Agent.activate/handleActivationRequest/handleActivation/handleDeactivation/handleActorTopology/addActivated/removeActivated/hasKindLocal/handleGetActive (by id)/memberJoin (topology)/memberLeave (purge)/Receive (dispatch), MemberSet.FilterByKind, Member.HasKind; cluster-wide convergence is the composition of these clauses with delivery and is not machine-checked",
 		"thread confinement of the agent's handlers; PID and Member objects immutable",
 	},
 	"C17": {
-		"scope (partial): Engine.send (remote branch), Remote.Send/Start/Stop, streamRouter.Receive/deliverStream/handleTerminateStream, streamWriter.Shutdown/PID; nothing about TCP, drpc, dialing, retry timing or cross-node ordering is decided",
+		"scope (partial): Engine.send (remote branch), Remote.Send/Start/Stop, streamRouter.Receive/deliverStream/handleTerminateStream, streamWriter.Shutdown/PID, streamReader.Receive (in-envelope order, envelope by envelope, on the stream's goroutine); nothing about TCP, drpc, dialing, retry timing or ordering on the wire is decided",
 		"router, writer, Remote fields and the router's address table are not written by code reached through Engine.SpawnProc/Send",
 		"no interleaving of concurrent Remote.Start/Stop calls is considered (each runs to completion)",
 	},
